@@ -63,8 +63,15 @@ def literal_cases(draw, tier):
     return case
 
 
+@st.composite
+def lattice(draw, tier):
+    case = draw(gen.lattice_cases(value_class=draw(st.sampled_from(["exact", "exact", "general"]))))
+    case["capacity"] = draw(st.sampled_from([None, 1, 2]))
+    return case
+
+
 def setup(tier, seed, shard):
-    return {"worker": Worker()}
+    return {"worker": Worker(timeout=180.0), "tier": tier}
 
 
 def teardown(ctx):
@@ -90,6 +97,12 @@ def check_one(case, ctx, native=True):
     if not fails and native and ctx is not None:
         nf, _rep = kcheck.native_check(case, exp, ctx["worker"])
         fails += nf
+        # a sample also goes through the cffi back end (emitted C compiled by the system compiler)
+        every = 40 if ctx.get("tier") == "quick" else 20
+        if not nf and int(kcheck.case_id(case), 16) % every == 0:
+            nf2, _rep2 = kcheck.native_check(case, exp, ctx["worker"], backend="cffi")
+            fails += nf2
+            ctx["cffi_runs"] = ctx.get("cffi_runs", 0) + 1
     return fails, True, exp, "ok"
 
 
@@ -128,6 +141,7 @@ def check(case, ctx=None):
 STREAMS = {
     "main": {"strategy": cases, "check": check, "setup": setup, "teardown": teardown},
     "literals": {"strategy": literal_cases, "check": check, "setup": setup, "teardown": teardown},
+    "lattice": {"strategy": lattice, "check": check, "setup": setup, "teardown": teardown},
 }
 
 
@@ -206,6 +220,7 @@ def run(chk):
     stats = run_stream(__name__, "main", chk.tier, chk.seed, n)
     chk.absorb(stats, shrink=shrink_case)
     chk.absorb(run_stream(__name__, "literals", chk.tier, chk.seed, 160 if chk.tier == "quick" else 4000), shrink=shrink_case)
+    chk.absorb(run_stream(__name__, "lattice", chk.tier, chk.seed, 160 if chk.tier == "quick" else 6000), shrink=shrink_case)
     # bounded-exhaustive: templates x every format assignment (sampled above the tier limit)
     from .. import templates
     from ..runner import run_tasks
